@@ -30,6 +30,9 @@ func main() { lib.Main("C11", runC11) }
 type c11in struct {
 	Kind   string `json:"kind"`             // l1 | myers | tree
 	Stream string `json:"stream,omitempty"` // which premise the generator may break: unique | idless | reorder | errors | grow
+	// l1seq: a request history on one long-lived server
+	Times []int64 `json:"times_ms,omitempty"`
+	Gen   bool    `json:"generated_asset,omitempty"` // the asset is one of the generated layouts (same seed)
 	// l1
 	URL string `json:"url,omitempty"` // MPD URL path without query
 	T1  int64  `json:"t1_ms,omitempty"`
@@ -302,6 +305,25 @@ func collectTag(e *etree.Element, tag string, out *[]*etree.Element) {
 // SegmentTimelines (and the startNumber that goes with it).
 func windowStartOnly(a, b *etree.Element) bool {
 	x, y := a.Copy(), b.Copy()
+	// whole Periods may have left the window at the old end
+	var py []*etree.Element
+	for _, p := range y.ChildElements() {
+		if p.Tag == "Period" {
+			py = append(py, p)
+		}
+	}
+	if len(py) > 0 {
+		first := py[0].SelectAttrValue("id", "")
+		for _, p := range x.ChildElements() {
+			if p.Tag != "Period" {
+				continue
+			}
+			if p.SelectAttrValue("id", "") == first {
+				break
+			}
+			x.RemoveChild(p)
+		}
+	}
 	var sa, sb []*etree.Element
 	collectTag(x, "SegmentTimeline", &sa)
 	collectTag(y, "SegmentTimeline", &sb)
@@ -329,6 +351,16 @@ func windowStartOnly(a, b *etree.Element) bool {
 		t.RemoveAttr("startNumber")
 	}
 	return canonical(x) == canonical(y)
+}
+
+func periodIDs(root *etree.Element) string {
+	var ids []string
+	for _, p := range root.ChildElements() {
+		if p.Tag == "Period" {
+			ids = append(ids, p.SelectAttrValue("id", ""))
+		}
+	}
+	return strings.Join(ids, ",")
 }
 
 func panicKey(cls string, old, new *etree.Document) string {
@@ -564,7 +596,17 @@ const marginS = 10 // patch.PatchExpirationMargin, as documented in the code
 
 // runL1 performs one (t1,t2) experiment and evaluates the property text on it.
 func runL1(c *lib.Ctx, ls *lib.Livesim, id string, in c11in) (o l1obs) {
-	fail := func(key, what string) { c.Fail(id, key, what, in) }
+	return runL1x(c, ls, id, in, in)
+}
+
+// runL1x: as runL1; failures are reported with failIn as replay input (the request history the pair belongs to).
+func runL1x(c *lib.Ctx, ls *lib.Livesim, id string, in c11in, failIn any) (o l1obs) {
+	fail := func(key, what string) {
+		if _, isSeq := failIn.(c11in); isSeq && failIn.(c11in).Kind == "l1seq" {
+			what = fmt.Sprintf("[t1=%d t2=%d] %s", in.T1, in.T2, what)
+		}
+		c.Fail(id, key, what, failIn)
+	}
 	d1, _, st := getMPD(ls, in.URL, in.T1)
 	if d1 == nil {
 		o.Skip = fmt.Sprintf("no MPD at t1 (status %d)", st)
@@ -607,7 +649,11 @@ func runL1(c *lib.Ctx, ls *lib.Livesim, id string, in c11in) (o l1obs) {
 	regen := ""
 	regenWhy := ""
 	if dOld != nil && canonical(dOld.Root()) != canonical(d1.Root()) {
-		regen = "regen-base:"
+		regen = "regen-base[publishTime-moved]:"
+		if dOld.Root().SelectAttrValue("publishTime", "") == o.PT1 {
+			// two different MPDs with one publishTime: the MPD changed between publishTime and t1 without a new publishTime
+			regen = "regen-base[same-publishTime]:"
+		}
 		regenWhy = "; the MPD regenerated for publishTime+1ms differs from the MPD served at t1: " + firstDiff(canonical(dOld.Root()), canonical(d1.Root()))
 	}
 	switch rp.Status {
@@ -659,6 +705,10 @@ func runL1(c *lib.Ctx, ls *lib.Livesim, id string, in c11in) (o l1obs) {
 			if o.PT1 == o.PT2 {
 				// the two MPDs differ but carry the same publishTime: nothing the patch code can see
 				key = "425-but-changed:same-publishTime:other"
+				if periodIDs(d1.Root()) != periodIDs(d2.Root()) {
+					// a Period was added or left the window while publishTime stayed
+					key = "425-but-changed:same-publishTime:period-list"
+				}
 				if windowStartOnly(d1.Root(), d2.Root()) {
 					// they differ solely at the old end of the timelines (segments left the time-shift window)
 					key = "425-but-changed:same-publishTime:window-start-only"
@@ -689,6 +739,9 @@ func runL1(c *lib.Ctx, ls *lib.Livesim, id string, in c11in) (o l1obs) {
 				key = panicKey(d.Err, dOld, d2)
 			case 500:
 				key = "error-500"
+				if i := strings.LastIndex(d.Err, ": "); i >= 0 {
+					key = "error-500:" + d.Err[i+2:]
+				}
 				what = d.Err
 			}
 			o.Tree = treeObs{Status: d.Status, Exp: -1, OldDoc: dOld, NewDoc: d2, Served: true}
@@ -1005,6 +1058,11 @@ func runC11(c *lib.Ctx) error {
 		"ttl..ttl+margin, beyond, 1-3 ms, uniform}; L2: MyersDiff on random/mutated/windowed lists over 2-5 letters and on growing lists; " +
 		"MPDDiff on generated id-carrying MPD-like trees and their mutations (streams unique/idless/reorder/errors). " +
 		"distinct non-trivial = L1 answers 200 with distinct (url,publishTime pair) + Myers inputs with a non-empty script on two non-empty lists + tree pairs with more than two operations"
+	// ---------- L1b: configurations x assets x request histories
+	if err := runSeqStage(c, rng, ls, &nextID, distinct, &treeTerms); err != nil {
+		return err
+	}
+
 	const imports = "From Verif Require Import GoSem Patch CorrC11."
 	nFile := 0
 	for lo := 0; lo < len(myersTerms); lo += 400 {
@@ -1113,6 +1171,8 @@ func replayC11(c *lib.Ctx) error {
 		for _, f := range c.Res.OracleFailures {
 			fmt.Printf("  FAIL %s: %s\n", f.Key, f.What)
 		}
+	case "l1seq":
+		return replaySeq(c, in)
 	case "myers":
 		o := runMyers(in.E, in.F)
 		fmt.Printf("replay C11 (MyersDiff): e=%v f=%v -> panic=%q ops=%d valid=%v %s\n", in.E, in.F, o.Panic, len(o.Ops), o.Valid, o.Why)
